@@ -119,17 +119,24 @@ def run_val(run, cases, st):
         if not (rr and rr.get("stage") == "done" and isinstance(rr.get("ok"), dict)):
             raise Infra("round_dp_with_strategy did not answer: %r" % (rr,))
         c["r"], c["t_trunc"], c["t_plain"] = rr["ok"], text_of(tt), text_of(tp)
+        if c["t_plain"] is None:
+            raise Infra("Decimal::to_string panicked: %r" % (c,))
         reqs2.append({"kind": "dec", "op": "fmt_prec", "a": c["r"], "k": c["k"]})
+        reqs2.append({"kind": "dec", "op": "fmt", "a": c["r"]})
         keep.append(c)
     res2 = harness_run(reqs2)
     terms, out = [], []
-    for c, x in zip(keep, res2):
+    for i, c in enumerate(keep):
         if is_neg_zero(c["r"]):
             st["val_skipped"] += 1
             continue
-        c["t_round"] = text_of(x)
-        terms.append("c17_val_case %s %s %s %s %s %s" % (g_dec((c["m"], c["s"])), g_N(c["k"]), g_dec(c["r"]),
-                                                       g_opt(c["t_round"], g_str), g_opt(c["t_trunc"], g_str), g_opt(c["t_plain"], g_str)))
+        c["t_round"] = text_of(res2[2 * i])          # the library's Display with a precision (may panic: > 32 characters)
+        c["t_rplain"] = text_of(res2[2 * i + 1])     # to_string of the rounded value: what Scale::format starts from
+        if c["t_rplain"] is None:
+            raise Infra("Decimal::to_string panicked: %r" % (c,))
+        terms.append("c17_val_case %s %s %s %s %s %s %s" % (g_dec((c["m"], c["s"])), g_N(c["k"]), g_dec(c["r"]),
+                                                          g_str(c["t_plain"]), g_str(c["t_rplain"]),
+                                                          g_opt(c["t_trunc"], g_str), g_opt(c["t_round"], g_str)))
         out.append(c)
     return out, terms
 
@@ -137,9 +144,12 @@ def run_val(run, cases, st):
 def judge_val(run, c, bits, st, distinct):
     run.cov["evaluations"] += 1
     st["val_tags"][c["tag"]] = st["val_tags"].get(c["tag"], 0) + 1
-    impl = {"round_dp_with_strategy": c["r"], "rounded_text": c["t_round"], "display_only_text": c["t_trunc"], "plain": c["t_plain"]}
-    if needed(abs(c["m"]), c["s"]) > c["k"] and c["t_round"] is not None:
-        distinct.add(("v", c["t_round"], c["k"]))
+    impl = {"round_dp_with_strategy": c["r"], "rounded_to_string": c["t_rplain"], "rounded_display_with_precision": c["t_round"],
+            "display_with_precision": c["t_trunc"], "to_string": c["t_plain"]}
+    if needed(abs(c["m"]), c["s"]) > c["k"]:
+        distinct.add(("v", c["t_rplain"], c["k"]))
+    if c["t_round"] is None:
+        st["library_display_panics"] += 1    # expected exactly when the model says so (bit 1); not tackler code any more
     if len([s for s in run.cov["samples"] if s.get("level") == "value"]) < 2:
         run.cov["samples"].append({"level": "value", "decimal": J.dec_str(c["m"], c["s"]), "k": c["k"], "implementation": impl, "bits": bits})
     if not (bits & 4):
@@ -148,32 +158,12 @@ def judge_val(run, c, bits, st, distinct):
     rep = {"case": {"kind": "val", "m": str(c["m"]), "s": c["s"], "k": c["k"]}, "decimal": J.dec_str(c["m"], c["s"]),
            "decimals": c["k"], "implementation_output": impl,
            "replay_hint": "Decimal(%s).round_dp_with_strategy(%d, MidpointAwayFromZero) then format!(\"{:.%d}\")" % (J.dec_str(c["m"], c["s"]), c["k"], c["k"])}
-    if c["t_round"] is None:
-        # no text at all: the library panicked while formatting the rounded figure
-        if bits & 1:
-            f18(run, st, "value", rep)          # the model predicts it: 32-character buffer, finding F18
-        else:
-            run.violation("Display panics on a figure whose text fits the 32-character buffer (outside the class of finding F18)", rep)
-    elif not (bits & 2):
+    if not (bits & 2):
         run.violation("rust_decimal rounding / formatting contradicts round-half-away-from-zero on this decimal", rep)
     elif not (bits & 1):
         run.cov["disagreements_checked"] += 1
         rep["correspondence"] = "C17_corr.c17_val_case"
         run.violation("correspondence broken: model Round.dround_hafz/dfmt_prec differs from rust_decimal (spec oracle clean)", rep, found_input=False)
-
-
-F18_CLASS = "display_buffer_overflow"
-
-
-def f18(run, st, level, rep):
-    """a panic inside the class of finding F18 (text longer than 32 characters)"""
-    st["f18_" + level] += 1
-    entry = [f for f in load_findings("C17") if f.get("status") == "open" and f.get("class") == F18_CLASS]
-    if entry:
-        run.known_finding(entry[0]["what"])
-    else:
-        run.violation("no text is produced: Display with precision panics (more than 32 characters) for a representable figure "
-                      "under an admitted scale setting", rep)
 
 
 # ------------------------------------------------------------------ report level
@@ -189,7 +179,7 @@ def amount_gen(r, smin, smax, overflow=False):
         return (a if m > 0 else -a, s)
 
     def f():
-        if overflow and r.random() < 0.5:   # integer digits + 1 + min > 32 (finding F18)
+        if overflow and r.random() < 0.5:   # integer digits + 1 + min > 32 (regression: finding F18, fixed)
             nd = min(26, 32 - smin + r.randint(0, 2))
             s = r.randint(0, min(2, smin - 1))
             return (r.choice([1, -1]) * r.randint(10 ** (nd - 1), 10 ** nd - 1), s)
@@ -229,7 +219,7 @@ def rep_cases(run, n):
     for i in range(n):
         smin, smax = SCALES[i % len(SCALES)] if r.random() < 0.85 else (lambda a, b: (min(a, b), max(a, b)))(r.randint(0, 28), r.randint(0, 28))
         over = r.random() < 0.06
-        if over:                            # a small stream inside the class of finding F18
+        if over:                            # a small stream of figures longer than 32 characters (F18, fixed)
             smin = r.randint(8, 28)
             smax = r.randint(smin, 28)
         g = J.Gen(r, max_depth=3, n_accounts=r.randint(2, 6), comms=r.sample(["", "EUR", "He·bar", "€"], r.randint(1, 2)))
@@ -266,7 +256,7 @@ def parse_balance_block(lines, pos, bal, figs, sums, selected=False):
         if len(tok) != want or tok[-1] != row["acc"] or (row["comm"] and tok[2] != row["comm"]):
             raise ParseError("balance row %r does not match %s / %s" % (lines[pos - 1], row["acc"], row["comm"]))
         figs.append((row["own"], tok[0], False, "own sum of %s %s" % (row["acc"], row["comm"])))
-        figs.append((row["tree"], tok[1], True, "tree sum of %s %s" % (row["acc"], row["comm"])))
+        figs.append((row["tree"], tok[1], False, "tree sum of %s %s" % (row["acc"], row["comm"])))
         if not selected:        # every account is listed: the tree sum is the sum of the listed own sums below
             parts = [x["own"] for x in rows if x["comm"] == row["comm"] and (x["acc"] == row["acc"] or x["acc"].startswith(row["acc"] + ":"))]
             sums.append((row["tree"], parts))
@@ -337,27 +327,6 @@ def parse_register(text, entries):
     return figs, sums
 
 
-def exact_figs(bals):
-    """the figures of balance reports, without texts (used when the report panicked)"""
-    figs = []
-    for b in bals:
-        for row in b["rows"]:
-            figs.append((row["own"], "", False, "own sum of %s %s" % (row["acc"], row["comm"])))
-            figs.append((row["tree"], "", True, "tree sum of %s %s" % (row["acc"], row["comm"])))
-        for d in b["deltas"]:
-            figs.append((d["delta"], "", False, "delta of %r" % d["comm"]))
-    return figs
-
-
-def exact_reg_figs(entries):
-    figs = []
-    for e in entries:
-        for row in e["rows"]:
-            figs.append((row["amount"], "", False, "amount of %s" % row["acc"]))
-            figs.append((row["total"], "", False, "running total of %s" % row["acc"]))
-    return figs
-
-
 def rep_requests(cases):
     reqs = []
     for c in cases:
@@ -371,7 +340,7 @@ def rep_requests(cases):
 
 
 def g_fig(f):
-    return "(mkFig %s %s %s)" % (g_dec(f[0]), g_str(f[1]), g_bool(f[2]))
+    return "(mkFig %s %s)" % (g_dec(f[0]), g_str(f[1]))
 
 
 def g_sums(sums):
@@ -387,27 +356,28 @@ def run_rep(run, cases, st):
         if stg != "done":
             continue
         rs = rr["results"]
-        if not all("ok" in rs[i] for i in (0, 1, 3, 5)) or not all(("ok" in rs[i]) or rs[i].get("panic") for i in (2, 4, 6)):
+        names = ["txns", "balance", "text_balance", "balgrp", "text_balgrp", "register", "text_register"]
+        pan = [names[i] for i in range(7) if rs[i].get("panic")]
+        if pan:
+            st["rep_panics"] += 1
+            run.violation("report operation panics: %s" % ", ".join(pan),
+                          {"case": c, "scale": {"min": c["smin"], "max": c["smax"]}, "journal": c["text"], "listed_accounts": c.get("sel") or "all",
+                           "implementation_output": "panic in " + ", ".join(pan),
+                           "replay_hint": "tackler --config <toml with report.scale = {min=%d,max=%d}> --input.file <journal> --reports balance balance-group register" % (c["smin"], c["smax"])})
+            continue
+        if not all("ok" in x for x in rs):
             st["rep_op_failed"] += 1
             continue
-        txns, bal, tbal, grp, tgrp, reg, treg = [x.get("ok") for x in rs]
+        txns, bal, tbal, grp, tgrp, reg, treg = [x["ok"] for x in rs]
         try:
             sel = bool(c.get("sel"))
-            parts = [("balance", tbal) + (parse_balance(tbal, bal, txns, sel) if tbal is not None else (exact_figs([bal]), None)),
-                     ("balance-group", tgrp) + (parse_balgrp(tgrp, grp, sel) if tgrp is not None else (exact_figs(grp), None)),
-                     ("register", treg) + (parse_register(treg, reg) if treg is not None else (exact_reg_figs(reg), None))]
+            parts = [("balance", tbal) + parse_balance(tbal, bal, txns, sel),
+                     ("balance-group", tgrp) + parse_balgrp(tgrp, grp, sel),
+                     ("register", treg) + parse_register(treg, reg)]
         except (ParseError, IndexError) as e:
             raise Infra("C17 report text parser does not understand the report (check the parser, not the code): %s" % e)
         for name, text, figs, sums in parts:
             if not figs:
-                continue
-            if text is None:
-                # the report panicked: does the model say that some figure has no text?
-                if any(is_neg_zero(f[0]) for f in figs):
-                    st["neg_zero_skipped"] += 1
-                    continue
-                terms.append("c17_rep_panics (mkScale %s %s) %s" % (g_N(c["smin"]), g_N(c["smax"]), g_list([g_fig(f) for f in figs])))
-                out.append({"case": c, "report": name, "text": None, "figs": figs, "sums": []})
                 continue
             if any(is_neg_zero(f[0]) for f in figs) or any(is_neg_zero(t) or any(is_neg_zero(p) for p in ps) for t, ps in sums):
                 st["neg_zero_skipped"] += 1      # sign of zero is outside the model (Dec.v)
@@ -425,16 +395,6 @@ def run_rep(run, cases, st):
 def judge_rep(run, o, val, st, distinct):
     run.cov["evaluations"] += 1
     c = o["case"]
-    if o["text"] is None:
-        rep = {"case": c, "scale": {"min": c["smin"], "max": c["smax"]}, "report": o["report"], "journal": c["text"],
-               "implementation_output": "panic while writing the text report",
-               "figures": [J.dec_str(*dec_parts(f[0])) for f in o["figs"]][:20],
-               "replay_hint": "tackler --config <toml with report.scale = {min=%d,max=%d}> --input.file <journal> --reports %s" % (c["smin"], c["smax"], o["report"])}
-        if val == 1:
-            f18(run, st, "report", rep)
-        else:
-            run.violation("%s text report panics although every figure fits the 32-character buffer (outside the class of finding F18)" % o["report"], rep)
-        return
     bits, bad = val & 7, val >> 3
     smax = c["smax"]
     st["figures"] += len(o["figs"])
@@ -447,6 +407,8 @@ def judge_rep(run, o, val, st, distinct):
             h = abs(m) % 10 ** (s - smax)
             if 2 * h == 10 ** (s - smax):
                 st["figures_midpoint"] += 1
+        if len(f[1].lstrip("-")) > 32:
+            st["long_figures"] += 1
         if m < 0 and set(f[1]) <= set("0."):
             st["negative_shown_as_zero"] += 1
     key = "%d,%d" % (c["smin"], c["smax"])
@@ -493,7 +455,7 @@ def load_corpus():
 
 def check_cases(run, vcases, rcases):
     st = {"val_skipped": 0, "val_outside": 0, "val_tags": {}, "stages": {}, "rep_op_failed": 0, "neg_zero_skipped": 0,
-          "rep_outside": 0, "f18_value": 0, "f18_report": 0, "nonzero_deltas": 0, "figures": 0, "figures_rounded": 0, "figures_midpoint": 0, "negative_shown_as_zero": 0, "scales": {}}
+          "rep_outside": 0, "library_display_panics": 0, "rep_panics": 0, "long_figures": 0, "nonzero_deltas": 0, "figures": 0, "figures_rounded": 0, "figures_midpoint": 0, "negative_shown_as_zero": 0, "scales": {}}
     vout, vterms = run_val(run, vcases, st)
     rout, rterms = run_rep(run, rcases, st)
     vals, errs = coq_eval("C17", IMPORTS, vterms + rterms)
@@ -524,17 +486,18 @@ def main(run):
     run.cov["distinct_nontrivial"] = len(distinct)
     run.cov["rule"] = ("value level: decimals (mantissa up to 96 bits, scale 0..28, both signs; exact midpoints at every position and their "
                        "neighbours, trailing zeros, values rounding to zero, carry chains, powers of ten) x decimals 0..28 through "
-                       "round_dp_with_strategy(MidpointAwayFromZero) + Display; report level: seeded journals (1-5 txns, 1-2 commodities, amounts built "
+                       "round_dp_with_strategy(MidpointAwayFromZero) + to_string (+ the library's Display with a precision, panics included); report level: seeded journals (1-5 txns, 1-2 commodities, amounts built "
                        "relative to the configured scale: midpoints, half-midpoints that add up, more decimals than max, fewer than min, stored scale > needed, "
                        "negatives rounding to zero; 40% with listed accounts so that deltas are not zero) rendered as balance, balance-group and register text under scale (min,max) in "
-                       "{(0,0),(2,2),(2,7),(0,28),(28,28),(0,3)} + random; every amount column parsed and compared with the model and the oracle; "
+                       "{(0,0),(2,2),(2,7),(0,28),(28,28),(0,3)} + random + a stream of figures longer than 32 characters (regression F18); every amount column parsed and compared with the model and the oracle; "
                        "non-trivial = the figure needs more decimals than shown; distinct = distinct printed outputs among those")
     run.notes.update({"value_cases_by_kind": st["val_tags"], "value_cases_skipped": st["val_skipped"], "value_cases_outside_domain": st["val_outside"],
                       "report_stages": st["stages"], "reports_by_scale": st["scales"], "report_figures": st["figures"],
                       "report_figures_rounded": st["figures_rounded"], "report_figures_exact_midpoint": st["figures_midpoint"],
                       "negative_figures_shown_as_zero": st["negative_shown_as_zero"], "nonzero_delta_figures": st["nonzero_deltas"], "reports_skipped_negative_zero_figure": st["neg_zero_skipped"],
                       "reports_outside_domain": st["rep_outside"], "report_ops_failed": st["rep_op_failed"],
-                      "panics_in_class_F18": {"value_level": st["f18_value"], "reports": st["f18_report"]}})
+                      "report_panics": st["rep_panics"], "report_figures_longer_than_32_chars": st["long_figures"],
+                      "library_display_with_precision_panics_as_modelled": st["library_display_panics"]})
     return run.finish(info)
 
 
@@ -554,8 +517,6 @@ def replay(run, path):
     check_cases(run, [c] if c["kind"] == "val" else [], [c] if c["kind"] == "rep" else [])
     for what, rep, found in run.violations:
         print("REPRODUCED: %s%s" % (what, "" if found else " (no failing input: correspondence only)"))
-    for k in run.known:
-        print("REPRODUCED (known finding): %s" % k)
-    if not run.violations and not run.known:
+    if not run.violations:
         print("not reproduced: the case passes now")
     return 1 if run.violations else 0
